@@ -12,6 +12,13 @@ def _c(text, ref):
 
 
 CLAIMS = {
+    "C02": _c("Bounded symbolic model checking of the real execute_sync against a direct transcription of the specification's "
+              "execution algorithm (CollectFields, ExecuteSelectionSet, ExecuteField, CoerceArgumentValues, CompleteValue with "
+              "non-null propagation, ResolveAbstractType), both run on the same symbolic inputs inside one path: request templates "
+              "whose @skip/@include variables, variable values and data-graph leaves are symbolic and whose list shapes and raising "
+              "resolver are cell parameters. Assertions: same keys in the same order, same values and nulls, same error paths, "
+              "resolvers called with exactly the coerced arguments, and history independence on shared schema/document objects.",
+              "DESIGN.md section 7, C02"),
     "C20": _c("Bounded symbolic model checking of the real build_schema / validate_schema / graphql_sync on a schema family with "
               "known ground truth: 36 single edits of a 14-definition base schema (27 rule violations + 9 legal controls) and every "
               "pair of them under both SDL routes, all 6x6 wrapper stacks for interface field covariance and argument invariance, "
